@@ -275,13 +275,16 @@ def edge_ok_under(g, facts: Dict[str, bool], defs: Optional[Dict[str, ast.expr]]
 
 # ---------------------------------------------------------------------------------------------- normal form of a function
 def _pure(e) -> bool:
-    """attribute chains on names, names, constants and tuples of those: no calls, no subscripts."""
+    """attribute chains on names, names, constants, tuples of those, and such a value +/- an integer constant: no calls,
+    no subscripts."""
     if isinstance(e, (ast.Name, ast.Constant)):
         return True
     if isinstance(e, ast.Attribute):
         return _pure(e.value)
     if isinstance(e, ast.Tuple):
         return all(_pure(x) for x in e.elts)
+    if isinstance(e, ast.BinOp) and isinstance(e.op, (ast.Add, ast.Sub)):      # `max_len = self.label_length - 6`
+        return _pure(e.left) and _pure(e.right) and any(isinstance(x, ast.Constant) and isinstance(x.value, int) for x in (e.left, e.right))
     return False
 
 
